@@ -297,9 +297,12 @@ static int ref_next(ref_cursor *c)
 /* leave the current container from any position; lands just behind its END byte */
 static int ref_leave(ref_cursor *c)
 {
-    int skipped_containers = 0;
+    int skipped_containers = 0;      /* OBJECT elements the scan runs over (a nested array resets the toggle when it is entered) */
     for (;;) {
-        if (c->pending) { c->pos = ref_skip_container(c->b, c->n, c->pos); c->pending = 0; skipped_containers++; }
+        if (c->pending) {
+            if (c->b[c->pos] == 0x40) { skipped_containers++; }
+            c->pos = ref_skip_container(c->b, c->n, c->pos); c->pending = 0;
+        }
         ref_token t = ref_scan(c->b, c->n, c->pos);
         if (t.kind == RT_OBJ_END || t.kind == RT_ARR_END || t.kind == RT_ERR) { break; }
         if (t.kind == RT_OBJ_BEGIN || t.kind == RT_ARR_BEGIN) { c->pending = 1; continue; }
@@ -307,7 +310,8 @@ static int ref_leave(ref_cursor *c)
     }
     c->pos += 1; c->sp--; c->have_cur = 0; c->pending = 0;
     /* known finding C06-array-toggle-parity: a leave scan that runs over container elements of an
-     * array that is itself an element of an array disturbs the parent's stop/consume toggle */
+     * array that is itself an element of an array disturbs the parent's stop/consume toggle (object
+     * elements only: entering a nested array resets the toggle) */
     if (c->kind[c->sp] && c->sp > 0 && c->kind[c->sp - 1] && skipped_containers > 0) { c->hazard = 1; }
     return 1;
 }
@@ -324,7 +328,8 @@ static int ref_raw(ref_cursor *c, size_t *off, size_t *len)
         for (;;) {
             ref_token t = ref_scan(c->b, c->n, q);
             if (t.kind == RT_ARR_END || t.kind == RT_OBJ_END || t.kind == RT_ERR) { break; }
-            if (t.kind == RT_OBJ_BEGIN || t.kind == RT_ARR_BEGIN) { c->hazard = 1; break; }
+            if (t.kind == RT_OBJ_BEGIN) { c->hazard = 1; break; }
+            if (t.kind == RT_ARR_BEGIN) { q = ref_skip_container(c->b, c->n, q); continue; }
             q += t.len;
         }
     }
